@@ -276,6 +276,7 @@ def sharded_rank_fn(spec, tmpdir=None):
         rec['assignment'] = {n: dict(inv=a.inv_worker(n, 'A'), factor_worker=a.factor_worker(n, 'A'), src=a.src_grad_worker(n), is_gw=a.is_grad_worker(n))
                              for n in a.get_layers()}
         step_no = 0
+        kept_loaded = []   # (index into rec['sd'], the state object that was loaded): looked at again when the history is over
         din = stage_input_dim(spec, c.pipe)
         for ei, ev in enumerate(spec['history']):
             simdist.phase((ev[0], step_no, ei))
@@ -343,6 +344,7 @@ def sharded_rank_fn(spec, tmpdir=None):
                         intact = set(loaded_obj['layers']) == set(saved['layers']) and all(
                             torch.equal(loaded_obj['layers'][n_][f_], saved['layers'][n_][f_]) for n_ in saved['layers'] for f_ in ('A', 'G') if saved['layers'][n_][f_] is not None)
                     rec['sd'][-1]['loaded_state_intact'] = (intact, sorted(set(saved) - set(loaded_obj)))
+                    kept_loaded.append((len(rec['sd']) - 1, loaded_obj))
                     after = {}
                     for n, layer in p._layers.values():
                         after[n] = dict(A=None if layer.a_factor is None else layer.a_factor.clone(),
@@ -350,6 +352,13 @@ def sharded_rank_fn(spec, tmpdir=None):
                                         has_second_order=layer.qa is not None and layer.qg is not None)
                     rec['sd'][-1]['after_load'] = after
                     rec['sd'][-1]['steps_after_load'] = p.steps
+        for k_, obj in kept_loaded:
+            # training went on after the load: the loaded object must still hold what was saved (it may be loaded again)
+            saved = rec['sd'][k_]['state']
+            ok = set(obj) == set(saved)
+            if ok and 'layers' in saved:
+                ok = all(torch.equal(obj['layers'][n_][f_], saved['layers'][n_][f_]) for n_ in saved['layers'] for f_ in ('A', 'G') if saved['layers'][n_][f_] is not None)
+            rec['sd'][k_]['loaded_state_intact_at_end'] = ok
         return rec
     return fn
 
